@@ -4,7 +4,7 @@ import glob, json, os
 ROOT = os.path.dirname(os.path.dirname(os.path.abspath(__file__)))
 print("| Seeded change | Property | Breaks it by | Needs to manifest | Caught by (signatures) |")
 print("|---|---|---|---|---|")
-for d in sorted(glob.glob(os.path.join(ROOT, "seeded", "*"))):
+for d in sorted(x for x in glob.glob(os.path.join(ROOT, "seeded", "*")) if os.path.isdir(x)):
     m = json.load(open(os.path.join(d, "meta.json")))
     notes = m.get("needs_to_manifest", "").replace("\n", " ").replace("|", "/")
     caught = "; ".join(f"{c}: {', '.join(v['sigs'][:3])}" for c, v in m.get("checks", {}).items() if v["exit"] == 1) or "MISSED"
